@@ -49,6 +49,7 @@ type caseIn struct {
 	Intf       string            `json:"intf"`
 	Beh        []string          `json:"beh"`
 	Obeh       []string          `json:"obeh"`
+	Ohang      bool              `json:"ohang"`
 	Depth      int               `json:"depth"`
 	SwapV      bool              `json:"swapv"`
 	Nontrivial bool              `json:"nontrivial"`
@@ -63,19 +64,23 @@ type specIn struct {
 	Intf  string            `json:"intf"`
 	Beh   []string          `json:"beh"`
 	Obeh  []string          `json:"obeh"`
+	Ohang bool              `json:"ohang"`
 	Depth int               `json:"depth"`
 	SwapV bool              `json:"swapv"`
 }
 
 type specOut struct {
-	Res      string            `json:"res"`
-	Status   string            `json:"status"`
-	Pins     map[string]string `json:"pins"`
-	Reqs     []reqLog          `json:"reqs"`
-	Swarm    []int             `json:"swarm"`
-	Ms       int64             `json:"ms"`
-	Err      string            `json:"err"`
-	Mismatch []string          `json:"mismatch"`
+	Res    string            `json:"res"`
+	Status string            `json:"status"`
+	Pins   map[string]string `json:"pins"`
+	Reqs   []reqLog          `json:"reqs"`
+	Swarm  []int             `json:"swarm"`
+	// ByDeadline: the call returned by itself, well before the caller's own
+	// deadline (res "hung" otherwise: only the caller's context ended it)
+	ByDeadline bool     `json:"by_deadline"`
+	Ms         int64    `json:"ms"`
+	Err        string   `json:"err"`
+	Mismatch   []string `json:"mismatch"`
 }
 
 type rec struct {
@@ -248,10 +253,11 @@ func runCase(c *caseIn, names *hx.Names, client *rpc.Client) (*rec, error) {
 	d.mu.Unlock()
 	sort.Ints(out.Swarm)
 	out.Ms = el.Milliseconds()
+	out.ByDeadline = el < callerDeadline*9/10
 	switch {
 	case cerr == nil:
 		out.Res = "ok"
-	case el >= callerDeadline*9/10:
+	case !out.ByDeadline:
 		out.Res = "hung"
 		out.Err = cerr.Error()
 	default:
@@ -269,7 +275,7 @@ func runCase(c *caseIn, names *hx.Names, client *rpc.Client) (*rec, error) {
 		return s
 	}
 	return &rec{ID: c.ID, In: specIn{Op: c.Op, Mode: c.Mode, Upd: c.Upd, Norig: c.Norig, Prior: c.Prior, Intf: c.Intf,
-		Beh: nz(c.Beh), Obeh: nz(c.Obeh), Depth: c.Depth, SwapV: c.SwapV}, Out: out}, nil
+		Beh: nz(c.Beh), Obeh: nz(c.Obeh), Ohang: c.Ohang, Depth: c.Depth, SwapV: c.SwapV}, Out: out}, nil
 }
 
 // runSteady repeats a script when the call took much longer than the timers
@@ -295,7 +301,8 @@ func runSteady(c *caseIn, names *hx.Names, client *rpc.Client) (*rec, error) {
 			}
 			return nil, err
 		}
-		if err != nil || attempt >= 2 {
+		// a call that needed the caller's deadline is repeated once at most
+		if err != nil || attempt >= 2 || (attempt >= 1 && r.Out.Res == "hung") {
 			return r, err
 		}
 		budget := int64(250)
